@@ -6,11 +6,13 @@ pub mod c02;
 pub mod c03;
 pub mod c04;
 pub mod c05;
+pub mod c06;
 pub mod c07;
 pub mod c08;
 pub mod c09;
 pub mod c10;
 pub mod c11;
+pub mod c12;
 pub mod c13;
 pub mod c14;
 pub mod c15;
@@ -27,11 +29,13 @@ pub fn registry() -> Vec<PropertyDef> {
     PropertyDef { id: "C03", run: c03::run, replay: c03::replay },
     PropertyDef { id: "C04", run: c04::run, replay: c04::replay },
     PropertyDef { id: "C05", run: c05::run, replay: c05::replay },
+    PropertyDef { id: "C06", run: c06::run, replay: c06::replay },
     PropertyDef { id: "C07", run: c07::run, replay: c07::replay },
     PropertyDef { id: "C08", run: c08::run, replay: c08::replay },
     PropertyDef { id: "C09", run: c09::run, replay: c09::replay },
     PropertyDef { id: "C10", run: c10::run, replay: c10::replay },
     PropertyDef { id: "C11", run: c11::run, replay: c11::replay },
+    PropertyDef { id: "C12", run: c12::run, replay: c12::replay },
     PropertyDef { id: "C13", run: c13::run, replay: c13::replay },
     PropertyDef { id: "C14", run: c14::run, replay: c14::replay },
     PropertyDef { id: "C15", run: c15::run, replay: c15::replay },
